@@ -39,6 +39,7 @@ type C02Case struct {
 	Steps []C02Step `json:"steps"`
 	Plan  ReadPlan  `json:"plan"`
 	Ext   string    `json:"ext,omitempty"` // file mode: "", ".gz", ".xz"
+	Twin  bool      `json:"twin,omitempty"`  // multi mode: a second stream (the same alignments in reverse order) is parsed at the same time
 	Stale int       `json:"stale,omitempty"` // file modes: the output path already holds this many bytes left by an earlier run
 	// multi mode: the schedule
 	Seed    uint64 `json:"seed"`
@@ -53,7 +54,7 @@ func init() { Register(c02{}) }
 func (c02) ID() string       { return "C02" }
 func (c02) New() interface{} { return &C02Case{} }
 func (c02) Rule() string {
-	return "each run: an alignment of 1-10 rows whose length is drawn from the widths that straddle every writer line and block (10, 50, 60, 80, their neighbours and multiples) or at random, nucleotide or protein IUPAC residues in both cases with '-', '*', '?', names of 1-14 printable non-blank characters that the formats of the run can represent (<= 10 for strict Phylip; all-digit names included), and one of seven modes: single (writer -> simulated stream -> parser), chain (2-4 formats in a row), file (utils.OpenWriteFile -> real temp file, plain/.gz/.xz, fresh or already holding 1-120000 bytes of an earlier output -> utils.ReadAlign / GetReader), gzstream (gzip bytes through the simulated stream and GetReaderFromReader), auto (format detection), multifile (2-5 Phylip alignments of sizes on both sides of 4096 bytes written one after the other to one plain/.gz/.xz file and read back with ParseMultiAlignmentsAuto), multi (1-25 Phylip alignments in one stream through ParseMultiAlignmentsAuto with the parser goroutine, every read of the simulated file, the consumer and the close under the seeded scheduler). Distinct = distinct (mode, formats and options, alignment shape, fragment plan or schedule hash); non-trivial = the alignment has at least 2 rows and 2 columns, or the stream holds at least 2 alignments."
+	return "each run: an alignment of 1-10 rows whose length is drawn from the widths that straddle every writer line and block (10, 50, 60, 80, their neighbours and multiples) or at random, nucleotide or protein IUPAC residues in both cases with '-', '*', '?', names of 1-14 printable non-blank characters that the formats of the run can represent (<= 10 for strict Phylip; all-digit names included), and one of seven modes: single (writer -> simulated stream -> parser), chain (2-4 formats in a row), file (utils.OpenWriteFile -> real temp file, plain/.gz/.xz, fresh or already holding 1-120000 bytes of an earlier output -> utils.ReadAlign / GetReader), gzstream (gzip bytes through the simulated stream and GetReaderFromReader), auto (format detection), multifile (2-5 Phylip alignments of sizes on both sides of 4096 bytes written one after the other to one plain/.gz/.xz file and read back with ParseMultiAlignmentsAuto), multi (1-25 Phylip alignments in one stream through ParseMultiAlignmentsAuto with the parser goroutine, every read of the simulated file, the consumer and the close under the seeded scheduler; in 3 runs of 10 a second stream - the same alignments in reverse order - is parsed by another goroutine in the same schedule). Distinct = distinct (mode, formats and options, alignment shape, fragment plan or schedule hash); non-trivial = the alignment has at least 2 rows and 2 columns, or the stream holds at least 2 alignments."
 }
 
 // leaveStale puts the disk in the state an earlier run left it in: the output path exists and holds Stale bytes
@@ -194,6 +195,9 @@ func (c02) Gen(rs uint64, tier string, race bool) interface{} {
 	var fs []string
 	for _, s := range c.Steps {
 		fs = append(fs, s.Format)
+	}
+	if c.Mode == "multi" {
+		c.Twin = r.Chance(0.3)
 	}
 	if c.Mode == "file" || c.Mode == "multifile" {
 		c.Ext = r.PickS("", "", ".gz", ".gz", ".gz", ".gz", ".gz", ".xz")
@@ -575,10 +579,47 @@ func (c *C02Case) runMulti(ctx *Ctx, o *Outcome, fail func(string, string, ...in
 	var f *simFile
 	format := -1
 	closedSeen := false
-	cfg := SchedCfg{Seed: c.Seed, Policy: c.Policy, Choices: c.Choices, Strict: ctx.Strict, MaxSteps: 200*len(data) + 20000}
+	// the twin: the same alignments in reverse order, another stream parsed by another goroutine at the same time
+	var got2 []align.Alignment
+	var err2 error
+	closed2 := false
+	var data2 []byte
+	if c.Twin {
+		var t2 strings.Builder
+		for k := len(origs) - 1; k >= 0; k-- {
+			t2.WriteString(c02Write(origs[k], c.Steps[k%len(c.Steps)]))
+		}
+		data2 = []byte(t2.String())
+		o.Add("multi_twin_streams", 1)
+	}
+	cfg := SchedCfg{Seed: c.Seed, Policy: c.Policy, Choices: c.Choices, Strict: ctx.Strict, MaxSteps: 200*(len(data)+len(data2)) + 20000}
 	sr := RunSched(ctx.T, cfg, func() {
+		if c.Twin {
+			verifrt.Go("twin@harness", func() {
+				plan2 := c.Plan
+				plan2.Seed++
+				f2 := newSimFile(data2, plan2)
+				f2.park = func() { verifrt.Yield("read@simfile2") }
+				f2.parkClose = func() { verifrt.Yield("close@simfile2") }
+				ac2, _, err := utils.ParseMultiAlignmentsAuto(f2, bufio.NewReader(f2), strict, align.BOTH)
+				if err != nil {
+					err2 = err
+					return
+				}
+				for {
+					verifrt.Yield("consume2@harness")
+					al, ok := <-ac2.Achan
+					if !ok {
+						closed2, err2 = true, ac2.Err
+						return
+					}
+					got2 = append(got2, al)
+				}
+			})
+		}
 		f = newSimFile(data, c.Plan)
 		f.park = func() { verifrt.Yield("read@simfile") }
+		f.parkClose = func() { verifrt.Yield("close@simfile") }
 		ac, fm, err := utils.ParseMultiAlignmentsAuto(f, bufio.NewReader(f), strict, align.BOTH)
 		format = fm
 		if err != nil {
@@ -664,6 +705,24 @@ func (c *C02Case) runMulti(ctx *Ctx, o *Outcome, fail func(string, string, ...in
 	if f.readsAfterClose > 0 {
 		fail("multi:read-after-close", "%d reads after the file was closed (closed at byte %d of %d)", f.readsAfterClose, f.posAtClose, len(data))
 		return
+	}
+	if c.Twin {
+		if err2 != nil || !closed2 {
+			fail("multi:parse-error", "the second stream, parsed at the same time: error %v, channel closed %v, after %d of %d alignments", err2, closed2, len(got2), len(c.Alns))
+			return
+		}
+		if len(got2) != len(c.Alns) {
+			fail("multi:list-differs", "second stream, parsed at the same time: %d alignments written, %d parsed", len(c.Alns), len(got2))
+			return
+		}
+		for k := range got2 {
+			j := len(c.Alns) - 1 - k
+			if d := sameAlignment(&c.Alns[j], alphas[j], got2[k]); d != "" {
+				fail("multi:list-differs", "second stream, parsed at the same time: alignment #%d of %d: %s", k, len(got2), d)
+				return
+			}
+		}
+		o.Add("round_trips", int64(len(got2)))
 	}
 	o.Add("round_trips", int64(len(got)))
 	o.Add("multi_streams_exact", 1)
